@@ -106,6 +106,7 @@ def removeK (p : FsPath) : M Unit := do
     | some fs => if !fs.isEmpty then fail .dirContainsFiles else M.pure ()
     | none => M.pure ()
   | none => M.pure ()
+  if (← getEntry p).isNone then return () else
   let d ← dirOf p
   match (← getEntry d) with
   | some pe =>
@@ -134,28 +135,12 @@ theorem removeChild_eq (pe : Entry) (n : Str) :
 theorem sameCore_rmName (pe : Entry) (n : Str) : SameCore pe (rmName pe n) := by
   unfold rmName; split <;> exact ⟨rfl, rfl, rfl, rfl, rfl, rfl⟩
 
-theorem removeK_absent_noparent {k : FsPath} {s : State} (hne : k ≠ []) (hk : alLookup k s.entries = none)
-    (hd : alLookup k.dropLast s.entries = none) :
-    removeK k s = (.ok (), { s with entries := alErase k s.entries }) := by
+/-- a missing path: `Ok(())`, nothing touched (whatever its parent is; `k = []` included) -/
+theorem removeK_absent {k : FsPath} {s : State} (hk : alLookup k s.entries = none) :
+    removeK k s = (.ok (), s) := by
   unfold removeK
-  simp only [getEntry_bind, hk, mpure_bind, dirOf_bind, hne, if_false, hd, removeEntry_bind]
+  simp only [getEntry_bind, hk, mpure_bind, Option.isNone_none, if_true]
   rfl
-
-theorem removeK_absent_parent {k : FsPath} {s : State} {pe : Entry} (hne : k ≠ []) (hk : alLookup k s.entries = none)
-    (hd : alLookup k.dropLast s.entries = some pe) :
-    removeK k s = if pe.dir then (.ok (), { s with entries := alErase k (alInsert k.dropLast (rmName pe (baseName k)) s.entries) })
-      else (.err .isNotDir, s) := by
-  unfold removeK
-  simp only [getEntry_bind, hk, mpure_bind, dirOf_bind, hne, if_false, hd, removeChild_eq]
-  cases pe.dir with
-  | false => simp only [Bool.false_eq_true, if_false, liftO_err_bind]
-  | true =>
-    have hdk : k.dropLast ≠ k := by
-      intro e; have := congrArg List.length e; simp at this
-      have : k.length ≠ 0 := by simpa using hne
-      omega
-    simp only [if_true, liftO_ok_bind, setEntry_bind, getEntry_bind, alLookup_alInsert_ne hdk, hk, removeEntry_bind]
-    rfl
 
 theorem dropLast_ne_self {k : FsPath} (hne : k ≠ []) : k.dropLast ≠ k := by
   intro e; have := congrArg List.length e; simp at this
@@ -178,7 +163,8 @@ theorem removeK_present {k : FsPath} {s : State} {e pe : Entry} (hne : k ≠ [])
   have hdk := dropLast_ne_self hne
   rcases hf with hf | hf <;>
   · simp only [getEntry_bind, hk, hf, mpure_bind, dirOf_bind, hne, if_false, hd, removeChild_eq, hpd, if_true,
-      liftO_ok_bind, setEntry_bind, alLookup_alInsert_ne hdk, List.isEmpty_nil, Bool.not_true, Bool.false_eq_true]
+      liftO_ok_bind, setEntry_bind, alLookup_alInsert_ne hdk, List.isEmpty_nil, Bool.not_true, Bool.false_eq_true,
+      Option.isNone_some]
     cases e.file with
     | true => simp only [if_true, removeFile_bind, removeEntry_bind]; rfl
     | false => simp only [Bool.false_eq_true, if_false, removeEntry_bind]; rfl
@@ -245,28 +231,13 @@ theorem removeK_sim {s : State} {k : FsPath} (hI : InvP s) (hne : k ≠ []) :
   cases hk : alLookup k s.entries with
   | none =>
     simp only [Option.map_none, hne, if_false]
-    rw [get_absS]
-    cases hd : alLookup k.dropLast s.entries with
-    | none =>
-      rw [removeK_absent_noparent hne hk hd]
-      simp only [Option.map_none, liftR]
-      apply sim_ok
-      rw [alErase_of_not_mem ((alLookup_eq_none_iff _ _).1 hk)]
-      exact TEquiv.refl _
-    | some pe =>
-      rw [removeK_absent_parent hne hk hd]
-      simp only [Option.map_some]
-      by_cases hkd : (absNode s k.dropLast pe).kind = Kind.dir
-      · obtain ⟨h1, h2⟩ := (kind_dir_iff _ _ _).1 hkd
-        simp only [hkd, if_true, h1, liftR]
-        apply sim_ok
-        refine ⟨rfl, fun x => ?_⟩
-        rw [get_rm hI hd _ _ (fun _ _ => rfl)]
-        split
-        · next h => subst h; rw [get_absS, hk]; rfl
-        · rfl
-      · simp only [hkd, if_false, liftR]
-        exact sim_unspec _ _
+    rw [removeK_absent hk]
+    cases get (absS s) k.dropLast with
+    | none => exact sim_ok (TEquiv.refl _)
+    | some n =>
+      by_cases hkd : n.kind = Kind.dir
+      · simp only [hkd, if_true, liftR]; exact sim_ok (TEquiv.refl _)
+      · simp only [hkd, if_false, liftR]; exact sim_unspec _ _
   | some e =>
     simp only [Option.map_some, hne, if_false]
     obtain ⟨pe, fs, hd, hpd, _, _, _⟩ := hI.parent k e hk hne
